@@ -7,7 +7,7 @@ import enc
 import gen
 from props.common import drain, load_def, mk_dfa, mk_nfa, outcome
 
-RULE = ("random valid DFA/NFA definitions (1-6 states, 1-3 symbols, partial/complete, epsilon cycles, "
+RULE = ("(one machine in five is read again as an instance built under allow_mutable_automata = True, every word twice) random valid DFA/NFA definitions (1-6 states, 1-3 symbols, partial/complete, epsilon cycles, "
         "rows missing, empty target sets, 7 state-name type pools) x random words incl. foreign symbols; "
         "distinct = distinct (canonical automaton, word); non-trivial = word non-empty and automaton has >= 2 states")
 
@@ -20,8 +20,10 @@ def impl_dfa(d, w):
     return ys, out, acc, mem, ri
 
 
-def check_dfa(ctx, ddef, words, tag):
-    d = mk_dfa(ddef)
+def check_dfa(ctx, ddef, words, tag, mutable=False):
+    d = mk_mutable(mk_dfa, ddef) if mutable else mk_dfa(ddef)
+    if mutable:
+        ctx.tally("dfa_mutable_mode")
     st = enc.Renum(enc.dfa_names(d))
     items, metas = [], []
     for w in words:
@@ -71,8 +73,22 @@ def check_dfa(ctx, ddef, words, tag):
                            "model": repr(ans), "tag": tag})
 
 
-def check_nfa(ctx, ndef, words, tag):
-    n = mk_nfa(ndef)
+def mk_mutable(mk, d):
+    """Built under allow_mutable_automata = True from its own deep copy: keeps the plain dicts and sets it was given."""
+    import copy
+    import automata.base.config as cfg
+    saved = cfg.allow_mutable_automata
+    cfg.allow_mutable_automata = True
+    try:
+        return mk(copy.deepcopy(d))
+    finally:
+        cfg.allow_mutable_automata = saved
+
+
+def check_nfa(ctx, ndef, words, tag, mutable=False):
+    n = mk_mutable(mk_nfa, ndef) if mutable else mk_nfa(ndef)
+    if mutable:
+        ctx.tally("nfa_mutable_mode")
     st = enc.Renum(enc.nfa_names(n))
     items, metas = [], []
     for w in words:
@@ -114,7 +130,7 @@ def check_nfa(ctx, ndef, words, tag):
                  sample={"nfa": repr(ndef), "word": w, "impl_yields": repr(ys), "outcome": out[:2]})
         if problems:
             ctx.violation("NFA reading disagrees with the textbook run: " + "; ".join(problems),
-                          {"kind": "nfa", "def": repr(ndef), "word": w, "problems": problems,
+                          {"kind": "nfa", "def": repr(ndef), "word": w, "words": words, "mutable": mutable, "problems": problems,
                            "model": repr(ans), "tag": tag})
 
 
@@ -158,6 +174,11 @@ def run(ctx):
         sigma = sorted(ndef["input_symbols"])
         words = [""] + [gen.rand_word(rng, sigma, 7, p_foreign=0.08 if j % 3 == 0 else 0.0) for j in range(9)]
         check_nfa(ctx, ndef, words, "random")
+        if i % 5 == 0:
+            # the same reads on instances that keep plain dicts and sets (allow_mutable_automata): a read must not
+            # change what the next read sees
+            check_nfa(ctx, ndef, words + words[::-1], "random_mutable_mode", mutable=True)
+            check_dfa(ctx, ddef, [""] + words[:4], "random_mutable_mode", mutable=True)
     if ctx.tier == "thorough":
         # exhaustive: every partial DFA with <= 2 states over {a,b}, initial state 0, all words <= 4 over {a,b,#}
         words = list(gen.all_words("ab#", 4))
@@ -177,7 +198,9 @@ def replay(ctx, case):
     if case["kind"] == "dfa":
         check_dfa(ctx, load_def(case["def"]), [case["word"]], "replay")
     elif case["kind"] == "nfa":
-        check_nfa(ctx, load_def(case["def"]), [case["word"]], "replay")
+        # (a mutable-mode case replays the whole series of reads: the failing read may depend on the earlier ones)
+        check_nfa(ctx, load_def(case["def"]), case["words"] if case.get("mutable") else [case["word"]], "replay",
+                  mutable=case.get("mutable", False))
     else:
         known_none_state(ctx)
     print("replay:", "VIOLATION reproduced" if ctx.violations else "no disagreement")
